@@ -861,6 +861,53 @@ impl<'c, 'd> Gen<'c, 'd> {
         }
     }
 
+    /// A sibling of an operand written before: the same comparison with another constant index /
+    /// key after the last `[*]`, or another ordering operator, or left as it is.
+    fn sibling(&mut self, e: &MExpr) -> MExpr {
+        let mut out = e.clone();
+        fn first_cmp(e: &mut MExpr) -> Option<(&mut MIndex, &mut MOp)> {
+            match e {
+                MExpr::Cmp { lhs, op } => Some((lhs, op)),
+                MExpr::Not(a) | MExpr::Paren(a) => first_cmp(a),
+                MExpr::Comb { items, .. } => first_cmp(&mut items[0]),
+                MExpr::Quant { .. } => None,
+            }
+        }
+        let how = self.ch.draw(3);
+        if let Some((lhs, op)) = first_cmp(&mut out) {
+            let last_each = lhs.path.iter().rposition(|i| matches!(i, MIdx::Each));
+            let tail_from = last_each.map(|p| p + 1).unwrap_or(0);
+            match how {
+                0 => {}
+                1 if tail_from < lhs.path.len() => {
+                    let k = lhs.path.len() - 1;
+                    match &mut lhs.path[k] {
+                        MIdx::Idx(n, _) => *n ^= 1,
+                        MIdx::Key(key, _) => {
+                            let other = KEY_POOL.iter().find(|c| **c != key.as_str()).unwrap_or(&"k");
+                            *key = other.to_string();
+                            self.hints.keys.push(key.clone());
+                        }
+                        MIdx::Each => {}
+                    }
+                }
+                _ => {
+                    if let MOp::Ord(o, _) = op {
+                        *o = match *o {
+                            OrdOp::Eq => OrdOp::Ne,
+                            OrdOp::Ne => OrdOp::Eq,
+                            OrdOp::Ge => OrdOp::Lt,
+                            OrdOp::Lt => OrdOp::Ge,
+                            OrdOp::Gt => OrdOp::Le,
+                            OrdOp::Le => OrdOp::Gt,
+                        };
+                    }
+                }
+            }
+        }
+        out
+    }
+
     fn comb(&mut self, depth: usize, arr: bool) -> MExpr {
         let op = *self.ch.pick(&LOp::ALL);
         let n = self.ch.weighted(&[5, 3, 1]) + 2;
@@ -869,7 +916,7 @@ impl<'c, 'd> Gen<'c, 'd> {
             // now and then an operand is written twice (the previous one, or an earlier one)
             if !items.is_empty() && self.ch.chance(1, 6) {
                 let k = if self.ch.chance(2, 3) { items.len() - 1 } else { self.ch.draw(items.len()) };
-                let again: MExpr = items[k].clone();
+                let again: MExpr = self.sibling(&items[k].clone());
                 items.push(again);
                 continue;
             }
@@ -887,7 +934,7 @@ impl<'c, 'd> Gen<'c, 'd> {
         for _ in 0..n {
             if !operands.is_empty() && self.ch.chance(1, 6) {
                 let k = if self.ch.chance(2, 3) { operands.len() - 1 } else { self.ch.draw(operands.len()) };
-                let again: MExpr = operands[k].clone();
+                let again: MExpr = self.sibling(&operands[k].clone());
                 operands.push(again);
                 continue;
             }
